@@ -1,6 +1,8 @@
 import CohdlVerif.Lemmas.C13Hist
 import CohdlVerif.Lemmas.C13Views
 import CohdlVerif.Lemmas.C13Session
+import CohdlVerif.Lemmas.C13Mro
+import CohdlVerif.Lemmas.C13MroAgree
 import Mathlib.Tactic.Tauto
 /-!
   C13 - property theorems.  Part A: for EVERY history of requests (any order, repeated, interleaved, rejected
@@ -100,32 +102,58 @@ theorem C13.upto_vector_base_is_downto (w : Nat) :
 
 /-- CREATION NEVER FAILS (lookup / recursion part).  Every legal request of every history returns a class: the
     recursion through the bases terminates within the bound and never hits an inconsistent table.
-    (That `type(name, bases, {})` itself cannot fail on an inconsistent MRO is `C13.mro_exists_partial` below.) -/
+    (That `type(name, bases, {})` itself cannot fail on an inconsistent MRO is `C13.mro_exists` below.) -/
 theorem C13.creation_never_fails (h : List Key) (n : Nat) (k : Key) (hn : h[n]? = some k) (hl : legal k = true) :
     ∃ i, (runHist initSt h).2[n]? = some (some i) :=
   runHist_legal h initSt inv_init init_roots n k hn hl
 
 example : legal (.q .port (some .inout) (.arr (.arr (.vec .sgn .upto 65) 0) 3)) = true := by decide
 
-namespace CohdlVerif.C13
-/-- every shape of lazily created class (all qualifier kinds and directions x vector kinds x both orders,
-    unparametrised kinds, Bit, arrays) with two different widths each -/
-def shapeHist : List Key :=
-  ([QKind.signal, .variable, .temporary].map (fun qk => (qk, (none : Option Dir))) ++
-   [Dir.input, .output, .inout].map (fun d => (QKind.port, some d))).flatMap (fun (qk, d) =>
-    [VKind.bv, .uns, .sgn].flatMap (fun k =>
-      [Key.q qk d (.vec k .downto 1), .q qk d (.vec k .upto 1), .q qk d (.vec k .downto 3), .q qk d (.root (kroot k))]) ++
-    [.q qk d (.root .bit), .q qk d (.arr (.vec .uns .downto 3) 2), .q qk d (.arr (.arr (.root .bit) 1) 2)])
-end CohdlVerif.C13
+/-- MRO EXISTS (general).  For EVERY history and EVERY class of the final table - requested classes of every kind, width,
+    order, qualifier, direction, array element type / count / nesting, the classes created as their bases, the anonymous
+    parents, the import-time roots - the C3 merge of the MROs of its bases never gets stuck (`type.__new__` cannot raise
+    "Cannot create a consistent method resolution order"), and the resulting `__mro__` is the closed form `mroK` of the
+    class's parameter tuple (each entry = the class of that tuple).  Proof: `mroK_c3` is the C3 certificate on parameter
+    tuples for every shape with symbolic parameters, `c3merge_map` transports it along the injective map tuple -> class id,
+    `mroTable_spec` is the induction over the table in creation order (bases are created before the class: `Inv.ordered`). -/
+theorem C13.mro_exists (h : List Key) (i : Nat) (c : Cls) (hc : (runHist initSt h).1[i]? = some c) :
+    ∃ m, (mroTable (runHist initSt h).1)[i]? = some (some m) ∧
+      m.map some = (mroK c.key).map (find (runHist initSt h).1) :=
+  mroTable_spec _ (hist_final h).1 i c hc
 
-/-- PARTIAL (finite check, NOT the full statement).  Full statement: for every history the C3 linearisation of
-    every class of the table exists (`(mroTable st).all isSome`), i.e. `type.__new__` never raises "Cannot create a
-    consistent method resolution order".  Proved here only for the table that contains every SHAPE of class with
-    two widths; missing: the lemma that C3 commutes with the injective renaming width -> width (the base graph of
-    a key does not depend on the numeric value of the width).  The correspondence check compares `__mro__` with
-    `mroTable` on every generated history (widths up to 66). -/
-theorem C13.mro_exists_partial :
-    (mroTable (runHist initSt shapeHist).1).all Option.isSome = true := by decide +kernel
+/-- corollary: no entry of the MRO table of any history is a failure -/
+theorem C13.mro_never_fails (h : List Key) : (mroTable (runHist initSt h).1).all Option.isSome = true := by
+  rw [List.all_eq_true]
+  intro x hx
+  obtain ⟨i, hi, hget⟩ := List.getElem_of_mem hx
+  rw [mroTable_length] at hi
+  obtain ⟨m, hm, _⟩ := C13.mro_exists h i _ (List.getElem?_eq_getElem hi)
+  have : (mroTable (runHist initSt h).1)[i]? = some x := by
+    rw [List.getElem?_eq_getElem (by rw [mroTable_length]; exact hi)]; simp [hget]
+  rw [hm] at this
+  simp at this; subst this; rfl
+
+/-- Python's `issubclass(A, B)` is `B in A.__mro__`; the lattice theorems above speak about reachability along
+    `__bases__` (`issub`).  For every history and any two requested classes the two coincide: membership of `B` in the C3
+    linearisation of `A` <-> `issub`. -/
+theorem C13.mro_is_issubclass (h : List Key) (n m : Nat) (k1 k2 : Key) (i j : Nat) (mro : List Nat)
+    (hn : h[n]? = some k1) (hm : h[m]? = some k2)
+    (rn : (runHist initSt h).2[n]? = some (some i)) (rm : (runHist initSt h).2[m]? = some (some j))
+    (hmro : (mroTable (runHist initSt h).1)[i]? = some (some mro)) :
+    j ∈ mro ↔ issub (runHist initSt h).1 i j = true := by
+  obtain ⟨hI, hlen, hf⟩ := hist_final h
+  have h1 := hf n k1 i hn rn
+  have h2 := hf m k2 j hm rm
+  obtain ⟨c, hc, hck⟩ := find_key _ k1 i h1
+  obtain ⟨m', hm', hmk⟩ := C13.mro_exists h i c hc
+  rw [hmro] at hm'
+  simp only [Option.some.injEq] at hm'
+  subst hm'
+  rw [hck] at hmk
+  exact mro_mem_iff_issub _ hI hlen k1 k2 i j mro h1 h2 hmk
+
+example : ((mroTable (runHist initSt [.q .port (some .input) (.vec .uns .upto 3)]).1).getLast?).map (·.map List.length) = some (some 15) := by
+  decide +kernel
 
 /-! ## Part B -/
 
